@@ -132,10 +132,10 @@ observable that was mutated. -/
 theorem mutate_delivered (E : Env) (st : St) (m : Mutation) :
     ∀ d ∈ (mutate E st m).delivered, some d.observable = m.target ∧ E.dead d.key = false := by
   intro d hd
-  have trait_case : ∀ (h' : Heap) (o : Id) (n : Name) (old new : Val) (ns : List Notifier) (H : Hooks),
-      d ∈ (callTrait E h' o n old new ns H []).2.1 → d.observable = .trait o n ∧ E.dead d.key = false := by
-    intro h' o n old new ns H hd
-    rcases callTrait_delivered E h' o n old new ns H [] d hd with h1 | ⟨k, rc, _, hk, _, rfl⟩
+  have trait_case : ∀ (H : Hooks) (h' : Heap) (o : Id) (n : Name) (old new : Val),
+      d ∈ (fire E H h' o n old new).delivered → d.observable = .trait o n ∧ E.dead d.key = false := by
+    intro H h' o n old new hd
+    rcases callTrait_delivered E h' o n old new _ H [] d hd with h1 | ⟨k, rc, _, hk, _, rfl⟩
     · cases h1
     · exact ⟨rfl, hk⟩
   cases m with
@@ -149,9 +149,8 @@ theorem mutate_delivered (E : Env) (st : St) (m : Mutation) :
       · split at hd
         · simp at hd
         · split at hd
-          split at hd
           · simp at hd
-          · exact trait_case _ _ _ _ _ _ _ hd
+          · exact trait_case _ _ _ _ _ _ hd
     · simp [skip] at hd
   | read o n fresh =>
     simp only [mutate] at hd
@@ -160,10 +159,7 @@ theorem mutate_delivered (E : Env) (st : St) (m : Mutation) :
     · split at hd
       · simp [skip] at hd
       · split at hd
-        · split at hd
-          split at hd
-          · simp at hd
-          · exact trait_case _ _ _ _ _ _ _ hd
+        · exact trait_case _ _ _ _ _ _ hd
         · simp at hd
     · simp [skip] at hd
   | addTrait o n tagged dflt =>
@@ -172,9 +168,7 @@ theorem mutate_delivered (E : Env) (st : St) (m : Mutation) :
     split at hd
     · split at hd
       · simp at hd
-      · split at hd
-        · simp at hd
-        · exact trait_case _ _ _ _ _ _ _ hd
+      · exact trait_case _ _ _ _ _ _ hd
     · simp [skip] at hd
   | listAppend c x =>
     simp only [mutate] at hd
